@@ -51,11 +51,11 @@ def main():
          "hooks": {"guard": "SIEVELIB_VERIF",
                    "enable": "no hooks: the checks are static analyses of /repo/sievelib/*.py; nothing in /repo is instrumented, so the guard is never consulted",
                    "baseline_off_cmd": "cd /repo && /venv/bin/python -m pytest -q -p no:cacheprovider --timeout=900",
-                   "source_commits": list(reversed(fixes)), "add_only": True},
+                   "source_commits": [], "add_only": True},
          "engines": [{"name": "sa", "path": "/verif/sa", "serves_properties": sorted(CLAIMED),
                       "kind_free_text": "repository-specific static analysis over the Python AST: program model, statement CFG with dominance and edge facts, call graph, constant / finite-domain evaluation, regex-to-DFA language comparison"}],
          "checks": checks,
-         "notes": "Static analysis only (DESIGN.md). Exit codes: 0 holds, 1 violation (VIOLATION line), 2 ANALYSIS-ERROR (no verdict). Known findings: /verif/known_findings.json. source_commits lists the unguarded `fix:` commits in /repo (genuine defects repaired); there are no hook commits.",
+         "notes": "Static analysis only (DESIGN.md). Exit codes: 0 holds, 1 violation (VIOLATION line), 2 ANALYSIS-ERROR (no verdict). Known findings: /verif/known_findings.json. There are no hook commits in /repo (source_commits is empty); the unguarded `fix:` commits that repair genuine defects are: " + ", ".join(reversed([f[:7] for f in fixes])) + ".",
          "not_applicable": na}
     json.dump(m, open(os.path.join(HERE, "MANIFEST.json"), "w"), indent=1)
     print("claimed", sorted(CLAIMED), "n/a", len(na))
